@@ -428,7 +428,6 @@ func c17scenarios() []*schedx.Scenario {
 	R := func(n string, k c17key) c17op { return c17op{kind: "R", name: n, key: k} }
 	W := func(n string, k c17key, v byte) c17op { return c17op{kind: "W", name: n, key: k, val: v} }
 	C := func(n, target string) c17op { return c17op{kind: "C", name: n, target: target} }
-	thorough := schedx.Tier() == "thorough"
 	for _, impl := range []string{"v1", "v2"} {
 		add := func(name string, ops []c17op, clock []time.Duration, exp map[core.Duty]time.Duration) {
 			scs = append(scs, c17scenario(impl, name, ops, clock, exp))
@@ -462,10 +461,11 @@ func c17scenarios() []*schedx.Scenario {
 		}
 		addRot("2r-1multiw", []c17op{R("R1", c17K1), R("R2", c17K3), W2("W1", c17K1, 1, c17K3, 2)})
 		addRot("2r-multiw-partial-failure", []c17op{W("W0", c17K3, 9), R("R1", c17K1), R("R2", c17K3), W2("W1", c17K1, 1, c17K3, 2)})
-		if thorough {
-			add("3r-2w", []c17op{R("R1", c17K1), R("R2", c17K1), R("R3", c17K2), W("W1", c17K1, 1), W("W2", c17K2, 2)}, nil, nil)
+		add("3r-2w", []c17op{R("R1", c17K1), R("R2", c17K1), R("R3", c17K2), W("W1", c17K1, 1), W("W2", c17K2, 2)}, nil, nil)
+		add("2r-cancel-2w", []c17op{R("R1", c17K1), R("R2", c17K2), C("C1", "R1"), W("W1", c17K1, 1), W("W2", c17K2, 2)}, nil, nil)
+		if schedx.Tier() == "thorough" {
 			add("3r-conflict", []c17op{R("R1", c17K1), R("R2", c17K1), W("W1", c17K1, 1), W("W2", c17K1, 2), W("W3", c17K2, 3), R("R3", c17K2)}, nil, nil)
-			add("2r-cancel-2w", []c17op{R("R1", c17K1), R("R2", c17K2), C("C1", "R1"), W("W1", c17K1, 1), W("W2", c17K2, 2)}, nil, nil)
+			add("3r-same-key-cancel-w", []c17op{R("R1", c17K1), R("R2", c17K1), R("R3", c17K1), C("C1", "R2"), W("W1", c17K1, 1)}, nil, nil)
 		}
 	}
 	return scs
@@ -473,11 +473,9 @@ func c17scenarios() []*schedx.Scenario {
 
 func TestVerifC17(t *testing.T) {
 	e := schedx.NewExplorer(t, "C17")
-	if schedx.Tier() == "thorough" {
-		e.Bounds = []int{0, 1, 2, 3, -1}
-	} else {
-		e.Bounds = []int{0, 1, 2}
-	}
+	// both tiers iterate the preemption bound up to unbounded (state-key pruning makes the <=4-thread scenarios finish in
+	// seconds); the thorough tier adds the 5-6 thread scenarios
+	e.Bounds = []int{0, 1, 2, 3, -1}
 	e.Explore(c17scenarios())
 	e.Finish()
 }
